@@ -8,6 +8,7 @@ import (
 	"io/fs"
 	"os"
 	"path/filepath"
+	"slices"
 	"sort"
 	"time"
 
@@ -437,16 +438,32 @@ func (a *App) clean(spokfile *file.SpokFile) error {
 
 // protected reports whether path is the spokfile, the directory containing it or
 // any directory above that, none of which --clean may ever remove.
+//
+// The project may have been reached through a symlinked directory and an output may spell
+// it differently from how spok found it, so both are also compared with the links in the
+// directories leading to them resolved (the last element of path is left alone: removing a
+// link never removes what it points to).
 func protected(spokfile *file.SpokFile, path string) bool {
 	path = filepath.Clean(path)
-	for dir := filepath.Clean(spokfile.Path); ; dir = filepath.Dir(dir) {
-		if path == dir {
-			return true
-		}
-		if dir == filepath.Dir(dir) {
-			return false
+	paths := []string{path}
+	if parent, err := filepath.EvalSymlinks(filepath.Dir(path)); err == nil {
+		paths = append(paths, filepath.Join(parent, filepath.Base(path)))
+	}
+	tops := []string{filepath.Clean(spokfile.Path)}
+	if dir, err := filepath.EvalSymlinks(filepath.Dir(spokfile.Path)); err == nil {
+		tops = append(tops, filepath.Join(dir, filepath.Base(spokfile.Path)))
+	}
+	for _, top := range tops {
+		for dir := top; ; dir = filepath.Dir(dir) {
+			if slices.Contains(paths, dir) {
+				return true
+			}
+			if dir == filepath.Dir(dir) {
+				break
+			}
 		}
 	}
+	return false
 }
 
 // setStream reassigns all the app's IO streams to match the one passed in.
